@@ -177,6 +177,7 @@ func Shrink(h *History, prop, class string, eval evalFn, budget int) *History {
 		func(c *Config) { c.PanicKind = 0 },
 		func(c *Config) { c.ValMask = 0 },
 		func(c *Config) { c.AltMask = 0 },
+		func(c *Config) { c.OptNoise = false },
 	} {
 		c := cur.Clone()
 		mut(&c.Cfg)
